@@ -363,6 +363,8 @@ class ThreadedDriver(DriverBase):
 
             def wait(self):
                 c = self.conn
+                if c.server_closed:
+                    return None                     # simple_websocket: receive() on a closed connection raises -> None
                 while not c.inbox:
                     if c.client_closed or c.server_closed:
                         return None                 # simple_websocket: receive() raises ConnectionClosed -> None
@@ -580,13 +582,33 @@ class VSel(selectors.BaseSelector):
         return self._m
 
 
+class OrderedTimer(asyncio.TimerHandle):
+    """timers due at the same instant fire in the order in which they were created (the heap order of equal TimerHandles is
+    otherwise an accident of the heap's shape)"""
+    __slots__ = ['_seq']
+
+    def __lt__(self, other):
+        if isinstance(other, OrderedTimer):
+            return (self._when, self._seq) < (other._when, other._seq)
+        return self._when < other._when
+
+
 class VLoop(asyncio.SelectorEventLoop):
     def __init__(self):
         ref = [None]
         self.vnow = T0
         self.limit = T0
+        self._tseq = itertools.count()
         super().__init__(VSel(ref))
         ref[0] = self
+
+    def call_at(self, when, callback, *args, context=None):
+        self._check_closed()
+        timer = OrderedTimer(when, callback, args, self, context)
+        timer._seq = next(self._tseq)
+        heapq.heappush(self._scheduled, timer)
+        timer._scheduled = True
+        return timer
 
     def time(self):
         return self.vnow
